@@ -38,6 +38,8 @@ def parseOp (j : Json) : Except String Op := do
   | "perm" =>
     let p ← j.getObjVal? "p"
     pure (.perm (← getF j "creator") (← getF j "msgProvider") (← getF p "owner") (← getF p "dataId") (← getF p "readonlyDids") (← getF p "readwriteDids") (← getF j "sigValid"))
+  | "report" => pure (.report (← getF j "creator") (← getF j "msgProvider") (← getF j "faults") (← getF j "newIds"))
+  | "recover" => pure (.recover (← getF j "creator") (← getF j "msgProvider") (← getF j "faults") (← getF j "insuranceKey"))
   | "payaddr" => pure (.payaddr (← fromJson? j))
   | "binding" => pure (.binding (← fromJson? j))
   | "didupdate" => pure (.didupdate (← fromJson? j))
